@@ -1,6 +1,171 @@
-//! C03 — stub (not built yet).
+//! C03 — every domain-name value is valid; limits are enforced at
+//! construction; text and wire round trips give the same octets.
+//!
+//! Sub-checks (see notes/C03.md):
+//! * `builder`, `builder-restricted`, `array`: generated NameBuilder
+//!   operation sequences against an abstract model (machine.rs);
+//! * `text`: every text constructor against a reference reader of the
+//!   presentation format; `roundtrip`: text and wire round trips of valid
+//!   names through every constructor; `wire`: wire constructors as
+//!   gatekeepers on valid/damaged octets; `parsed`: compressed names;
+//!   `ops`: slicing, splitting, truncating at label starts, chains (names.rs);
+//! * `scan`: names read by the zone-file scanner under $ORIGIN (scan.rs);
+//! * `sweep`: all (operation, prefix length, label length) combinations
+//!   (sweep.rs).
 use crate::engine::*;
+use arbitrary::Unstructured;
+use bytes::BytesMut;
+use octseq::array::Array;
+use std::collections::BTreeMap;
+
+mod machine;
+mod names;
+mod refs;
+mod scan;
+mod sweep;
+
+use machine::{run_machine, Cfg};
+
+fn run_builder_impl(data: &[u8], ctx: &mut Ctx, restricted: bool) -> CaseResult {
+    let mut u = Unstructured::new(data);
+    let max_ops = if ctx.thorough { 40 } else { 24 };
+    if crate::gen::flag(&mut u) {
+        let cfg = Cfg { tag: if restricted { "rvec" } else { "vec" }, cap: None, restricted, max_ops };
+        run_machine::<Vec<u8>>(&mut u, ctx, &cfg)
+    } else {
+        let cfg = Cfg { tag: if restricted { "rbytes" } else { "bytes" }, cap: None, restricted, max_ops };
+        run_machine::<BytesMut>(&mut u, ctx, &cfg)
+    }
+}
+
+fn run_builder(data: &[u8], ctx: &mut Ctx) -> CaseResult {
+    run_builder_impl(data, ctx, false)
+}
+fn run_builder_restricted(data: &[u8], ctx: &mut Ctx) -> CaseResult {
+    run_builder_impl(data, ctx, true)
+}
+
+fn run_array(data: &[u8], ctx: &mut Ctx) -> CaseResult {
+    let mut u = Unstructured::new(data);
+    macro_rules! go {
+        ($n:literal) => {{
+            let cfg = Cfg { tag: "array", cap: Some($n), restricted: true, max_ops: 16 };
+            ctx.class(concat!("array:cap-", stringify!($n)));
+            run_machine::<Array<$n>>(&mut u, ctx, &cfg)
+        }};
+    }
+    match crate::gen::pick(&mut u, 12) {
+        0 => go!(0),
+        1 => go!(1),
+        2 => go!(2),
+        3 => go!(3),
+        4 => go!(5),
+        5 => go!(8),
+        6 => go!(16),
+        7 => go!(40),
+        8 => go!(64),
+        9 => go!(254),
+        10 => go!(255),
+        _ => go!(256),
+    }
+}
+
+fn health(c: &BTreeMap<String, u64>, _thorough: bool) -> Result<(), String> {
+    let need: &[(&str, u64)] = &[
+        ("vec:push:ok", 100),
+        ("vec:append_slice:ok", 100),
+        ("vec:append_label:ok", 100),
+        ("vec:append_name:ok", 50),
+        ("vec:append_origin:ok", 50),
+        ("vec:into_name:ok", 50),
+        ("vec:finish", 50),
+        ("vec:push:rejected-name", 20),
+        ("vec:push:rejected-label", 20),
+        ("vec:append_slice:rejected-name", 20),
+        ("vec:append_slice:rejected-label", 20),
+        ("vec:append_label:rejected-name", 20),
+        ("vec:append_label:rejected-label", 20),
+        ("vec:append_name:rejected-name", 20),
+        ("vec:append_origin:rejected-name", 20),
+        ("vec:ok-after-failed-op", 50),
+        ("vec:reached-len-254", 20),
+        ("bytes:append_label:ok", 100),
+        ("rvec:reached-len-254", 20),
+        ("rvec:avoided-known-shape", 5),
+        ("array:push:shortbuf", 20),
+        ("array:append_slice:shortbuf", 20),
+        ("array:append_name:shortbuf", 5),
+        ("text:has-escape", 100),
+        ("text:name-from_str:ok", 100),
+        ("text:relative-from_str:ok", 100),
+        ("text:uncertain-from_str:ok", 100),
+        ("text:reference-rel-len-254", 20),
+        ("text:reference-rel-len-255", 20),
+        ("text:ownedlabel:ok", 50),
+        ("roundtrip:abs-255", 50),
+        ("roundtrip:label-63", 50),
+        ("roundtrip:special-octets", 100),
+        ("wire:valid-abs", 100),
+        ("wire:valid-rel", 100),
+        ("wire:invalid", 100),
+        ("wire:len-255", 20),
+        ("wire:len-256", 20),
+        ("parsed:ok", 100),
+        ("parsed:rejected-long", 20),
+        ("ops:chain-abs:ok", 100),
+        ("ops:chain-abs:rejected", 20),
+        ("ops:chain-rel:ok", 50),
+        ("scan:record-ok", 100),
+        ("scan:rejected", 50),
+        ("sweep:op:append_label", 1000),
+        ("sweep:op:from_str", 1000),
+    ];
+    for (k, min) in need {
+        let got = c.get(*k).copied().unwrap_or(0);
+        if got < *min {
+            return Err(format!("class {k} starved: {got} < {min}"));
+        }
+    }
+    Ok(())
+}
+
+fn extra(_opts: &RunOpts, agg: &mut Agg) -> Result<(), (Violation, Vec<u8>)> {
+    agg.extra_notes.insert(
+        "sweep_space".into(),
+        serde_json::json!({
+            "ops": ["push-loop new label", "append_slice new label", "append_label", "append_name", "append_origin", "from_str & co (relative and absolute text)",
+                     "push-loop in open label of 1/31/62/63", "append_slice in open label of 1/31/62/63", "finish/into_name/into_absolute", "chain(rel, abs)", "chain(rel, rel)"],
+            "prefix_len": "0..=256", "label_len": "0..=65", "combinations": sweep::sweep_size(true),
+            "enumerated_completely_in_both_tiers": true
+        }),
+    );
+    Ok(())
+}
 
 pub fn prop() -> Option<Prop> {
-    None
+    Some(Prop {
+        id: "C03",
+        rule: "builder/array cases: an operation sequence is non-trivial when a step comes within 2 octets of a limit (open label 61..=65, name 252..=256) or an operation succeeds/fails after an earlier failure (distinct by op kinds, chosen lengths and final octets); text cases: the reference length is 252..=257, a label is 61..=65, the text has an escape, or the text is malformed (distinct by text); roundtrip/ops/wire/parsed/scan: the name (or the chain total, or the input) is within 2-3 octets of 255/254, has a label >= 61 or octets that need escaping (distinct by octets); sweep: combinations with prefix+label within the same windows (distinct by index), all combinations are evaluated",
+        assumptions: &[
+            "Name/RelativeName slice, range, split, truncate are only called at indices for which is_label_start() is true and with start <= end (documented precondition; other indices panic by contract)",
+            "only the unsound direction is a violation for construction steps (Ok where a limit is broken, or an invalid value escapes); refusals of steps that are within limits are recorded as classes, except where a round-trip law demands acceptance (text written by Display / wire octets of a valid name)",
+            "after a failed single-step operation (push, append_slice, append_label, append_name, push_symbol) the observable state (finish() of a clone, in_label) must be unchanged; after a failed multi-step operation (append_dec_u8_label, append_hex_digit_label, append_chars, append_symbols, append_name on a full fixed buffer) it must be a valid state",
+            "reference reader for the presentation format: '.' separates labels, \\DDD (<= 255) and \\c (printable) escapes, printable ASCII otherwise (refs.rs); reference validator walks length octets (refs.rs); neither calls into domain",
+            "zone-file scanner texts use only letters, digits, '-', '_' and \\DDD escapes, so zone-file tokenisation (quotes, parentheses, comments) is not in play (C06/C07)",
+        ],
+        subchecks: vec![
+            SubCheck::new("builder", run_builder, 300_000, 3_600_000, 700),
+            SubCheck::new("builder-restricted", run_builder_restricted, 150_000, 1_800_000, 700),
+            SubCheck::new("array", run_array, 100_000, 1_200_000, 400),
+            SubCheck::new("text", names::run_text, 150_000, 1_800_000, 600),
+            SubCheck::new("roundtrip", names::run_roundtrip, 50_000, 600_000, 1200),
+            SubCheck::new("wire", names::run_wire, 150_000, 1_800_000, 800),
+            SubCheck::new("parsed", names::run_parsed, 80_000, 1_000_000, 1500),
+            SubCheck::new("ops", names::run_ops, 80_000, 1_000_000, 1500),
+            SubCheck::new("scan", scan::run_scan, 50_000, 600_000, 1500),
+            SubCheck::sweep("sweep", sweep::run_sweep, sweep::sweep_size),
+        ],
+        health: Some(health),
+        extra: Some(extra),
+    })
 }
